@@ -986,11 +986,13 @@ class HostWorld:
     """The real Reduino host modules executed under patched builtins, isolated from sys.modules."""
 
     def __init__(self, src_root: Optional[str] = None, stub_top=True, patched=True, overrides=None,
-                 real_prefixes=()):
+                 real_prefixes=(), ast_transform=None, extra_builtins=None):
         self.src_root = src_root or REPO_SRC
         self.patched = patched
         self.overrides = dict(overrides or {})      # module name -> fake module object (effects stubbed)
         self.real_prefixes = tuple(real_prefixes)    # Reduino.* sub-packages taken from the stock import system
+        self.ast_transform = ast_transform            # optional ast.Module -> ast.Module applied before compiling
+        self.extra_builtins = dict(extra_builtins or {})
         self.modules = {}
         self.fake_sys = types.SimpleNamespace(modules=self.modules, argv=[], path=[], stderr=sys.stderr,
                                               stdout=sys.stdout, version_info=sys.version_info,
@@ -1001,6 +1003,7 @@ class HostWorld:
             self.builtins = dict(_bi.__dict__)
             self.builtins["__import__"] = self._import
             self.builtins["print"] = p_print
+        self.builtins.update(self.extra_builtins)
         if stub_top:
             top = types.ModuleType("Reduino")
             top.__path__ = [os.path.join(self.src_root, "Reduino")]
@@ -1044,7 +1047,14 @@ class HostWorld:
         mod.__dict__["__builtins__"] = self.builtins
         self.modules[name] = mod
         with open(path) as f:
-            code = compile(f.read(), path, "exec")
+            text = f.read()
+        if self.ast_transform is not None:
+            import ast as _ast
+            tree = self.ast_transform(_ast.parse(text, path))
+            _ast.fix_missing_locations(tree)
+            code = compile(tree, path, "exec")
+        else:
+            code = compile(text, path, "exec")
         # dataclasses (with postponed annotations) consult the *real* sys.modules[cls.__module__] while the
         # class body is processed: make the module visible there for the duration of the exec only.
         inserted = name not in sys.modules
